@@ -25,11 +25,12 @@ def main():
         if f.parent is not None or '.tests.' in q:
             continue
         sig = localnames.signatures(f.node)
-        table[q] = sig
+        table[q] = {'locals': sig,
+                    'eq': sorted(localnames.eq_texts(f.node))}
     with open(localnames.TABLE, 'w') as fh:
         json.dump(table, fh, indent=0, sort_keys=True)
     print('%d functions, %d locals' % (
-        len(table), sum(len(v) for v in table.values())))
+        len(table), sum(len(v['locals']) for v in table.values())))
 
 
 if __name__ == '__main__':
